@@ -193,6 +193,14 @@ def build(prog):
         elif code == "ci":
             c = ((xx - x0_) ** 2 <= 6)
             Fsum.add_constraint(c)
+        elif code == "pm":          # mirrored inner-product keys (p, q) and (q, p), repeated key, constant
+            c = ((xx * x0_) + (x0_ * xx) + (xx * x0_) / 2 <= 9)
+            pep.add_constraint(c)
+        elif code == "pd":          # diagonal terms only, equality with a fresh leaf on the right
+            s_ = Expression()
+            c = (xx ** 2 / 2 + x0_ ** 2 == s_)
+            pep.add_constraint(c)
+            b.held["s_pd"] = s_
         elif code == "pg":
             c = (2 * (xx * x0_) >= -7)          # 'greater than' written by the user, mirrored key shape
             pep.add_constraint(c)
